@@ -150,6 +150,15 @@ fn build(dna: &mut Dna, ctx: &mut Ctx) -> Option<Built> {
     let zo = gen_zip_opts(dna);
     let mut po = gen_png_opts(dna, 6000, false);
     let mut out = junk(dna, true, 200);
+    if dna.chance(1) {
+        // the wrapper starts within a few bytes of a power-of-two offset (64 KiB .. 8 MiB)
+        let k = dna.range(16, 23);
+        let d = dna.range(0, 12) as i64 - 6;
+        let n = ((1i64 << k) + d) as usize;
+        let mut mm = Mix::new(dna.u64());
+        out = (0..n).map(|_| safe_junk_byte(&mut mm)).collect();
+        ctx.class("prefix:power-of-two-offset");
+    }
     let suffix_n = dna.range(0, 200);
     let mut m = Mix::new(dna.u64());
     // pair mode: another accepted stream sits directly in front, its zlib trailer missing or cut
